@@ -2,7 +2,9 @@ CONSTANTS
   NS = 2
   TRIES = 3
   ROTATE = 0
+  NSU = 2
+  EDITS = 0
 SPECIFICATION MSpec
-INVARIANTS Budget TryBound CookieBound ChoiceExists WaitSound
+INVARIANTS Paid OnMember Budget TryBound CookieBound ChoiceExists WaitSound
 PROPERTY Terminates
 CHECK_DEADLOCK FALSE
